@@ -286,6 +286,12 @@ func checkC02(r *core.Run) {
 		{"attribute-name-in-pieces", `<a data-x{{$x := 1}}/='` + S + `'>t</a>`, []string{"zz onmouseover=" + c02Marker + " zz"}, false},
 		{"attribute-name-in-pieces", `<iframe src{{$x := 1}}doc="` + S + `"></iframe>`, []string{c02Marker}, false},
 		{"attribute-name-in-pieces", `<a o{{$x := 1}}nclick="` + S + `">t</a>`, []string{c02Marker}, false},
+		// markup declarations that a tokenizer turns into comments
+		{"cdata-section-in-html", `<p><![CDATA[` + S + `]]></p>`, nil, false},
+		{"cdata-section-in-html", `<![CDATA[` + S + `]]>x`, nil, false},
+		{"cdata-section-in-html", `<div><![cdata[x` + S + `]]></div>`, nil, false},
+		{"processing-instruction", `<p><?xml ` + S + `?></p>`, nil, false},
+		{"bogus-declaration", `<p><!ELEMENT ` + S + `></p>`, nil, false},
 		// loop bodies whose re-entry context differs: through a callee, through {{continue}} / {{break}}
 		{"range-reentry-through-callee", `{{define "item"}}<li title="{{.}}{{end}}<ul>{{range $.L}}{{template "item" .}}{{else}}<li title="none{{end}}">x</li></ul>`, []string{"zz", "zz onmouseover=" + c02Marker + " zz"}, true},
 		{"continue-in-other-context", `{{range $.L}}<p>{{.}}</p><script>{{if eq . "t"}}{{continue}}{{end}}var r = 1;</script>{{end}}`, []string{"t", c02Marker}, true},
